@@ -23,7 +23,7 @@ VARIABLES ws,      \* workspace: object handle -> value token
 vars == <<ws, hist, last>>
 
 Nets  == {"N1", "N2"}
-Circs == {"C1", "C2"}
+Circs == {"C1", "C2", "C3"}          \* C3: the components of C1 under the same names with other capacitance / inductance values
 Docs  == {"DOCN", "DOCC", "DOCX", "ZPOL"}
 Shared == {"KEEP", "CV", "LV", "WL", "OUTS"}
 Handles == Nets \cup Circs \cup Docs \cup Shared
@@ -32,7 +32,7 @@ Handles == Nets \cup Circs \cup Docs \cup Shared
 Passing == {"default", "shared", "fresh"}
 KeepOps == {"remove_short_circuit_elements", "short_circuitify_voltage_sources", "open_circuitify_current_sources",
             "remove_ideal_voltage_sources", "remove_ideal_current_sources", "passive_network"}
-NetOps  == {"construct_network", "solve", "port_quantities", "switch_ground_node", "remove_element", "remove_open_circuit_elements"}
+NetOps  == {"construct_network", "solve", "solve_with_other_reference", "port_quantities", "switch_ground_node", "remove_element", "remove_open_circuit_elements"}
 CircOps == {"construct_circuit", "transform_circuit", "frequency_components", "dc_solution", "complex_solution", "time_domain_solution",
             "frequency_domain_solution", "transient_solution", "circuit_impedance"}
 Calls ==
